@@ -1,7 +1,7 @@
 #!/bin/bash
 # tools/seed_run.sh <seed-id e.g. C02-1> [tier] : run the property's check against the seeded change (applied in the
 # mutant's scratch worktree, used as VERIF_REPO), store the verdict in /verif/seeded/<id>/check_result.txt, restore the worktree.
-ID=$1; TIER=${2:-quick}; P=${ID%-*}; W=/tmp/mut/$P; D=/verif/seeded/$ID
+ID=$1; TIER=${2:-quick}; P=${ID%%-*}; W=${MUTROOT:-/tmp/mut}/$P; D=/verif/seeded/$ID
 cd $W && git checkout -q -- . && git clean -fdq -e _out && git apply $D/patch.diff || exit 2
 cd /verif
 VERIF_REPO=$W VERIF_KT_SUFFIX=-seed-$ID VERIF_MEM_GB=${VERIF_MEM_GB:-22} VERIF_JOBS=${VERIF_JOBS:-7} python3 run_check.py $P --tier $TIER --no-evidence > $D/check_log.txt 2>&1
